@@ -345,6 +345,7 @@ type obs struct {
 	FollowErr     string   `json:"follow_err,omitempty"`
 	FollowSame    bool     `json:"follow_same_conn"`
 	Complete      bool     `json:"complete_before_injection"`
+	PeerFailed    bool     `json:"peer_failed_before_injection,omitempty"`
 	Harness       string   `json:"harness_problem,omitempty"`
 }
 
